@@ -1,6 +1,7 @@
 """C03 Three-way merge always completes for valid notebooks under every strategy.
 (C04 re-uses this stream with the schema oracle switched on.)"""
 import os
+import re
 import random
 
 from ..collect import Collector
@@ -30,8 +31,15 @@ def plan(tier, seed):
     return [{"i": i, "triples": 420, "cfgs": 12, "full_every": 40, "timeout": 3000} for i in range(NSHARDS)]
 
 
-def classify_exc(key, tmpl):
-    return "exception:%s|%s" % (key, tmpl[:50])
+def classify_exc(key, tmpl, msg=""):
+    """mechanism = exception type @ innermost nbdime frame [source line] | message template, plus -- where the
+    template hides the one thing that tells two root causes apart -- the KIND of dict key named by the message
+    (a LOCAL_/REMOTE_ conflict-attachment name vs. any other key), never the key itself."""
+    mech = "exception:%s|%s" % (key, tmpl[:50])
+    m = re.search(r"(?:same key|deleted key|for key|key): '([^']*)'", msg)
+    if m and "patch_dict" in key:
+        mech += "[conflict-attachment-name]" if m.group(1).startswith(("LOCAL_", "REMOTE_")) else "[other-key]"
+    return mech
 
 
 def classify_schema(err_key, mixed_minor, cls, info):
@@ -87,7 +95,7 @@ def merge_case(col, paths, cls, b, l, rm, info, cfg, variant, schema, prop):
         key, tmpl = nbd.exc_key(e)
         col.count("merge_raised")
         if prop == "C03":
-            col.violation(classify_exc(key, tmpl), "%s: %s [class=%s cfg=%s]" % (key, str(e)[:160], cls, cfg), case, "returns-normally")
+            col.violation(classify_exc(key, tmpl, str(e)), "%s: %s [class=%s cfg=%s]" % (key, str(e)[:160], cls, cfg), case, "returns-normally")
         return None, None
     finally:
         os.environ["PATH"] = paths["full"]
